@@ -19,6 +19,9 @@ class UpdateGen(object):
 
     def path(self, doc, want=None):
         """a path, mostly existing in doc; want='arr' prefers paths holding arrays, 'num' numbers"""
+        if self.r.random() < 0.06:
+            # attempts on the (immutable) _id, whole or inside an embedded one
+            return self.r.choice(['_id', '_id.k', '_id.j', '_id.x', '_id.k.z'])
         if doc is not None and self.r.random() < 0.8:
             ps = [(c, v) for c, v in self.g.paths_of(doc) if c[0] != '_id']
             if want == 'arr':
